@@ -34,6 +34,9 @@ fn main() {
         eprintln!("usage: scnr-verif-harness <replay|...> ...");
         std::process::exit(2);
     }
+    if matches!(args[1].as_str(), "replay" | "replay1" | "replay-child" | "record" | "retrace") {
+        exec::arm_watchdog();
+    }
     let code = match args[1].as_str() {
         "replay" => replay::main(&args[2..]),
         "replay1" => replay::main_one(&args[2..]),
